@@ -113,7 +113,7 @@ structure St where
   chanDropped : List Val := []
   sentBy : List (Nat × Val) := []
   recvBy : List (Nat × Val) := []
-  deriving Repr, Inhabited
+  deriving DecidableEq, Repr, Inhabited
 
 /-! ## wrapping counters (`usize` in a release build) -/
 def WORD : Nat := 18446744073709551616
